@@ -497,7 +497,24 @@ func (i *interpreter) poolOf(p *value) *poolObj {
 
 // poolRelease / poolReuse implement "havoc on reuse" (A4): scalar fields of a recycled object
 // are replaced by fresh symbols so that any dependence on stale pool contents shows.
-func (i *interpreter) poolRelease(fr *frame, po *poolObj, v value) {}
+// Release also havocs (another goroutine may take the object out of the pool and overwrite it
+// at once, so whoever still reads through a stale pointer sees arbitrary contents), and putting
+// an object that is already in the pool is reported: two later Gets would hand the same object
+// to two users.
+func (i *interpreter) poolRelease(fr *frame, po *poolObj, v value) {
+	if itf, ok := v.(iface); ok {
+		if pv, ok := itf.v.(*value); ok && pv != nil {
+			for _, o := range po.items[:len(po.items)-1] {
+				if oi, ok := o.(iface); ok {
+					if op, ok := oi.v.(*value); ok && op == pv {
+						i.ex.fail("structural", "c14-pool-object-put-twice", "an object was returned to its sync.Pool while already in it (two users will be handed the same object) in "+fr.caller.fn.String(), i.ex.modelOrNil())
+					}
+				}
+			}
+		}
+	}
+	i.poolReuse(fr, po, v)
+}
 
 func (i *interpreter) poolReuse(fr *frame, po *poolObj, v value) {
 	if !i.ex.poolHavoc {
